@@ -20,9 +20,9 @@ type ManufCase struct {
 	Manuf, Device, Model byte
 	Request              bool
 	Addr                 [3]byte
-	Data                 ev.Hex  // data-set payload (Request == false)
-	Size                 [3]byte // requested size (Request == true)
-	AllCorruptions       bool    // try every (position, value) pair
+	Data                 ev.Hex   // data-set payload (Request == false)
+	Size                 [3]byte  // requested size (Request == true)
+	AllCorruptions       bool     // try every (position, value) pair
 	Corrupt              [][2]int // else: these (position, value) pairs; position counts from the first address byte
 }
 
